@@ -63,6 +63,108 @@ func temporallyCompatibleShape(rel string) func() string {
 	}
 }
 
+// compatibleShape: LogList.Compatible (the entry point the submission proxy uses when root checks are on) draws no window of
+// its own: every value it returns is `ll.TemporallyCompatible(cert)`, either as it is (only under `certRoot == nil`) or narrowed
+// by `.RootCompatible(certRoot, roots)`; the function contains no loop. Locals defined once are followed.
+func compatibleShape(rel string) func() string {
+	return func() string {
+		fd := mustFunc(rel, "LogList.Compatible")
+		var params []string
+		for _, f := range fd.Type.Params.List {
+			for _, n := range f.Names {
+				params = append(params, n.Name)
+			}
+		}
+		if len(params) != 3 {
+			panic(bail{fmt.Sprintf("%s: LogList.Compatible no longer takes (cert, certRoot, roots)", rel)})
+		}
+		defs := map[string][]ast.Expr{}
+		loops := 0
+		ast.Inspect(fd.Body, func(n ast.Node) bool {
+			switch x := n.(type) {
+			case *ast.ForStmt, *ast.RangeStmt:
+				loops++
+			case *ast.AssignStmt:
+				if len(x.Lhs) == len(x.Rhs) {
+					for i := range x.Lhs {
+						if id, ok := x.Lhs[i].(*ast.Ident); ok {
+							defs[id.Name] = append(defs[id.Name], x.Rhs[i])
+						}
+					}
+				}
+			}
+			return true
+		})
+		if loops > 0 {
+			panic(bail{fmt.Sprintf("%s: LogList.Compatible contains a loop of its own (it must filter through TemporallyCompatible)", rel)})
+		}
+		var resolve func(e ast.Expr, d int) ast.Expr
+		resolve = func(e ast.Expr, d int) ast.Expr {
+			if p, ok := e.(*ast.ParenExpr); ok {
+				return resolve(p.X, d)
+			}
+			if id, ok := e.(*ast.Ident); ok && d < 4 && len(defs[id.Name]) == 1 {
+				return resolve(defs[id.Name][0], d+1)
+			}
+			return e
+		}
+		isTemporal := func(e ast.Expr) bool {
+			c, ok := resolve(e, 0).(*ast.CallExpr)
+			if !ok || len(c.Args) != 1 || src(c.Args[0]) != params[0] {
+				return false
+			}
+			sel, ok := c.Fun.(*ast.SelectorExpr)
+			return ok && sel.Sel.Name == "TemporallyCompatible" && src(sel.X) == fd.Recv.List[0].Names[0].Name
+		}
+		nPlain, nRooted := 0, 0
+		var walk func(stmts []ast.Stmt, underNilRoot bool)
+		walk = func(stmts []ast.Stmt, underNilRoot bool) {
+			for _, st := range stmts {
+				switch x := st.(type) {
+				case *ast.ReturnStmt:
+					if len(x.Results) != 1 {
+						panic(bail{fmt.Sprintf("%s: LogList.Compatible: unexpected return %s", rel, src(x))})
+					}
+					r := resolve(x.Results[0], 0)
+					if isTemporal(r) {
+						if !underNilRoot {
+							panic(bail{fmt.Sprintf("%s: LogList.Compatible returns the temporal filter alone outside `%s == nil`", rel, params[1])})
+						}
+						nPlain++
+						continue
+					}
+					c, ok := r.(*ast.CallExpr)
+					if ok && len(c.Args) == 2 && src(c.Args[0]) == params[1] && src(c.Args[1]) == params[2] {
+						if sel, ok := c.Fun.(*ast.SelectorExpr); ok && sel.Sel.Name == "RootCompatible" && isTemporal(sel.X) {
+							nRooted++
+							continue
+						}
+					}
+					panic(bail{fmt.Sprintf("%s: LogList.Compatible returns %s, which is not TemporallyCompatible(%s)[.RootCompatible(%s, %s)]", rel, src(x.Results[0]), params[0], params[1], params[2])})
+				case *ast.IfStmt:
+					nilRoot := norm(src(x.Cond)) == params[1]+"==nil"
+					walk(x.Body.List, underNilRoot || nilRoot)
+					if x.Else != nil {
+						if b, ok := x.Else.(*ast.BlockStmt); ok {
+							walk(b.List, underNilRoot)
+						} else {
+							walk([]ast.Stmt{x.Else}, underNilRoot)
+						}
+					}
+				case *ast.BlockStmt:
+					walk(x.List, underNilRoot)
+				}
+			}
+		}
+		walk(fd.Body.List, false)
+		if nRooted == 0 {
+			panic(bail{fmt.Sprintf("%s: LogList.Compatible never returns TemporallyCompatible(…).RootCompatible(…)", rel)})
+		}
+		return fmt.Sprintf("/-- generated from %s func LogList.Compatible: every result is `TemporallyCompatible(cert)`, alone only when no root is given (%d return(s)), otherwise narrowed by `RootCompatible` (%d return(s)); no loop of its own. `rootOk` = the verdict of RootCompatible for the log -/\n"+
+			"def compatibleKeeps (iv : Option (Int × Int)) (t : Int) (rootGiven rootOk : Bool) : Bool :=\n  temporallyCompatible iv t && (!rootGiven || rootOk)\n", rel, nPlain, nRooted)
+	}
+}
+
 // windowVerbatimShape checks that the configured NotAfter bounds reach ValidateChain unchanged:
 // `*vCfg.NotAfterStart = start.AsTime()`, `*vCfg.NotAfterLimit = limit.AsTime()` in ValidateLogConfig and
 // `notAfterStart: vCfg.NotAfterStart`, `notAfterLimit: vCfg.NotAfterLimit` in setUpLogInfo.
